@@ -14,6 +14,7 @@ import (
 // history alphabet switches
 type alpha struct {
 	tx, gc, drain, reopen, otherDB bool
+	deleteEmptyKey                 bool // Delete("") is accepted by the store (only Set rejects the empty key)
 	maxTx                 int
 	levels                []model.TxIsoLevel
 }
@@ -59,6 +60,9 @@ func (w *world) step(a alpha, id string) string {
 	}
 	if a.otherDB && !w.otherOpened {
 		opts = append(opts, opt{8, 0, ""})
+	}
+	if a.deleteEmptyKey {
+		opts = append(opts, opt{1, 0, ""})
 	}
 	o := opts[nd.Choice("op", len(opts))]
 	switch o.kind {
@@ -149,7 +153,7 @@ func VerifH05b() {
 	k := histSteps(3, 4)
 	nd.Bound("H05b.steps", k)
 	w := newWorld(stdConfig(), []string{"a"})
-	a := alpha{tx: true, reopen: true, drain: true, otherDB: true, maxTx: 1, levels: []model.TxIsoLevel{fs_db.IsoLevelReadCommitted}}
+	a := alpha{tx: true, reopen: true, drain: true, otherDB: true, deleteEmptyKey: true, maxTx: 1, levels: []model.TxIsoLevel{fs_db.IsoLevelReadCommitted}}
 	// another database instance of the same process may have advanced the process counter
 	if nd.Choice("other-db-first", 2) == 1 {
 		w.otherOpened = true
